@@ -169,10 +169,13 @@ def concurrent_first_use(rec, rng, n):
             ad = m.bind("h.com")
             results = {}
             barrier = threading.Barrier(2)
+            stagger = rng.choice([0.0, 0.001, 0.002, 0.003, 0.004])
 
             def worker(i):
                 out = []
                 barrier.wait()
+                if i:
+                    time.sleep(stagger)  # arrive while the other thread is inside Map.update
                 for ep, v in (calls if i == 0 else calls[::-1]):
                     try:
                         out.append((ep, tuple(sorted(v.items())), ad.build(ep, dict(v))))
